@@ -230,11 +230,11 @@ pub fn history_model() -> dmn::Model {
       aggregation: None,
       output_label: None,
       inputs: vec![dmn::TableInput { expr: "D1".into(), type_ref: None, values: None }],
-      outputs: vec![dmn::TableOutput { name: None, type_ref: None, values: None, default: None }],
+      // no rule for values above 10: the default output entry, an expression over the required decision, answers
+      outputs: vec![dmn::TableOutput { name: None, type_ref: None, values: None, default: Some("\"high \" + string(D1)".into()) }],
       rules: vec![
         dmn::TableRule { inputs: vec!["< 3".into()], outputs: vec!["\"low\"".into()] },
         dmn::TableRule { inputs: vec!["[3..10]".into()], outputs: vec!["\"mid\"".into()] },
-        dmn::TableRule { inputs: vec!["-".into()], outputs: vec!["\"high\"".into()] },
       ],
     })),
   });
@@ -262,6 +262,7 @@ fn model_inputs() -> Vec<FeelContext> {
     mk(vec![("X", n(1)), ("Y", Value::String("y".into()))]),
     mk(vec![("X", n(7)), ("Y", Value::String("".into())), ("D1", n(100))]),
     mk(vec![("Y", Value::Null(None)), ("noise", n(3))]),
+    mk(vec![("X", n(50)), ("Y", Value::String("z".into()))]),
   ]
 }
 
